@@ -2,7 +2,7 @@
 //! table as part of their query. If they can't, the query will not be routed.
 
 use async_trait::async_trait;
-use sqlparser::ast::{visit_relations, Statement};
+use sqlparser::ast::{visit_relations, CopySource, ObjectName, Statement};
 
 use crate::{
     errors::Error,
@@ -32,7 +32,7 @@ impl<'a> Plugin for TableAccess<'a> {
 
         let mut found = None;
 
-        let _ = visit_relations(ast, |relation| {
+        let mut check = |relation: &ObjectName| {
             // Resolve the name like Postgres does: unquoted identifiers are folded
             // to lower case, quoted ones are taken verbatim.
             let table_name = match relation.0.last() {
@@ -49,7 +49,28 @@ impl<'a> Plugin for TableAccess<'a> {
             } else {
                 ControlFlow::<()>::Continue(())
             }
-        });
+        };
+
+        // The relation visitor does not report the table of `COPY table ...`
+        // nor the objects of `DROP ...`.
+        for statement in ast {
+            match statement {
+                Statement::Copy {
+                    source: CopySource::Table { table_name, .. },
+                    ..
+                } => {
+                    let _ = check(table_name);
+                }
+                Statement::Drop { names, .. } => {
+                    for name in names {
+                        let _ = check(name);
+                    }
+                }
+                _ => (),
+            }
+        }
+
+        let _ = visit_relations(ast, check);
 
         if let Some(found) = found {
             debug!("Blocking access to table \"{}\"", found);
